@@ -75,10 +75,61 @@ def exc_summary(exc, L):
 # Writer
 # --------------------------------------------------------------------------
 
-def writer_call(w, op):
+class _S(str):
+    pass
+
+
+class _I(int):
+    pass
+
+
+class _B(bytes):
+    pass
+
+
+def subclassed(v):
+    """The same value as an instance of a subclass of its type (a str /
+    int / bytes subclass; an OrderedDict filled in reverse order for a
+    dict): values the API accepts wherever it accepts the base type."""
+    if isinstance(v, bool) or v is None:
+        return v
+    elif type(v) is str:
+        return _S(v)
+    elif type(v) is int:
+        return _I(v)
+    elif type(v) is bytes:
+        return _B(v)
+    elif type(v) is dict:
+        from collections import OrderedDict
+        return OrderedDict((k, v[k]) for k in reversed(list(v)))
+
+    return v
+
+
+class _SubclassingWriter(object):
+    """Forwards calls to a writer with every argument replaced by its
+    subclassed() twin."""
+
+    def __init__(self, w):
+        self._w = w
+
+    def __getattr__(self, name):
+        f = getattr(self._w, name)
+
+        def call(*a, **kw):
+            return f(*[subclassed(x) for x in a],
+                     **{k: subclassed(x) for k, x in kw.items()})
+
+        return call
+
+
+def writer_call(w, op, sub=False):
     """Perform one op dict on a DiffXWriter."""
     name = op['op']
     kw = {}
+
+    if sub:
+        w = _SubclassingWriter(w)
 
     if op.get('positional'):
         # the documented parameter order is part of the API
@@ -170,9 +221,17 @@ class WriterActor(Actor):
             if 'version' in self.spec:
                 kw['version'] = pyval(self.spec['version'])
 
+            wcls = L.DiffXWriter
+
+            if self.spec.get('subclassed'):
+                # a subclass that overrides nothing, handed subclass
+                # instances of str / int / bytes / dict
+                wcls = type('DiffXWriter', (L.DiffXWriter,), {})
+                kw = {k: subclassed(v) for k, v in kw.items()}
+
             self._guarded(world, -1, 'ctor',
                           lambda: setattr(self, 'w',
-                                          L.DiffXWriter(self.handle, **kw)))
+                                          wcls(self.handle, **kw)))
 
             if self.w is None and not self.done:
                 self._end(world)
@@ -185,7 +244,8 @@ class WriterActor(Actor):
         self.i += 1
         op = self.ops[self.i]
         self._guarded(world, self.i, op['op'],
-                      lambda: writer_call(self.w, op))
+                      lambda: writer_call(self.w, op,
+                                          bool(self.spec.get('subclassed'))))
 
         if self.i + 1 >= len(self.ops) and not self.done:
             self._end(world)
